@@ -1,18 +1,32 @@
 (* Scripted.v — first-order handler scripts (the data the correspondence check generates)
    embedded into the interaction trees of Tree.v.  The Rust twin is harness/src/k_tree.rs.
    Model file: no proofs. *)
-From VF Require Import Base Gen_Errors Lexer Response Tree.
+From VF Require Import Base Gen_Errors Lexer Response Tree Conv.
 Open Scope N_scope.
+
+(* typed pulls: next_data::<T> / next_optional_data::<T> *)
+Inductive pty := PInt (t : ity) | PFloat (t : fty) | PBool | PBytes (t : bty).
+(* None: the conversion succeeded; Some e: it failed with code e *)
+Definition conv_status (ty : pty) (tok : token) : option Z :=
+  let st {A} (r : outcome (res A)) : option Z :=
+    match r with Val (Ok _) => None | Val (Err e) => Some e | Panic _ => Some DeviceSpecificError end in
+  match ty with
+  | PInt t => st (conv_int t tok)
+  | PFloat t => st (conv_float t tok)
+  | PBool => st (conv_bool tok)
+  | PBytes t => st (conv_bytes t tok)
+  end.
 
 Inductive sop :=
 | SPull (required swallow : bool)
+| SPullT (required swallow : bool) (ty : pty)
 | SHdr (h : list byte)
 | SData (d : rdata)
 | SFail (e : error)
 | SRetOk
 | SRetFinish.
 
-Inductive lentry := LCall (id : N) (q : bool) | LTok (t : token) | LAbsent | LPullErr (code : Z).
+Inductive lentry := LCall (id : N) (q : bool) | LTok (t : token) | LTyped | LAbsent | LPullErr (code : Z).
 Definition slog := list lentry.
 
 Fixpoint script_prog (ops : list sop) (log : slog) : hprog slog :=
@@ -22,6 +36,19 @@ Fixpoint script_prog (ops : list sop) (log : slog) : hprog slog :=
     Pull req (fun r =>
       match r with
       | Got t => script_prog ops' (log ++ [LTok t])
+      | Absent => script_prog ops' (log ++ [LAbsent])
+      | Failed e => if sw then script_prog ops' (log ++ [LPullErr (ecode e)])
+                    else Done (log ++ [LPullErr (ecode e)]) (RetErr e)
+      end)
+  | SPullT req sw ty :: ops' =>
+    Pull req (fun r =>
+      match r with
+      | Got t =>
+        match conv_status ty t with
+        | None => script_prog ops' (log ++ [LTyped])
+        | Some e => if sw then script_prog ops' (log ++ [LPullErr e])
+                    else Done (log ++ [LPullErr e]) (RetErr (std_error e))
+        end
       | Absent => script_prog ops' (log ++ [LAbsent])
       | Failed e => if sw then script_prog ops' (log ++ [LPullErr (ecode e)])
                     else Done (log ++ [LPullErr (ecode e)]) (RetErr e)
